@@ -241,6 +241,40 @@ def judge(label, t, tier, acc, rng):
     return found
 
 
+def alias_options_block(acc):
+    """alias(name, t) accepts exactly what t accepts ALSO when validate() is given options (extra
+    keyword arguments, handed down to nested schemas): t contains a user-defined type that
+    interprets the option mc_strict (mc/fwdtype.StrictInt)."""
+    from d42 import optional, schema
+    from .. import fwdtype  # noqa: F401  (registers schema.mc_strictint)
+    n = schema.mc_strictint
+    types = {"strictint": n, "list(strictint)": schema.list(n),
+             "dict{n: strictint, ...}": schema.dict({"n": n, ...: ...}),
+             "dict{optional n}": schema.dict({optional("n"): n}),
+             "any(none, strictint)": schema.any(schema.none, n), "int.min(0)": schema.int.min(0),
+             "strictint | str": n | schema.str}
+    raw = [None, True, False, 0, 1, -1, "x", 1.5]
+    values = raw + [[v] for v in raw] + [{"n": v} for v in raw] + [[], {}]
+    for name, t in types.items():
+        forms = {"alias": schema.alias("T", t), "alias-of-alias": schema.alias("U", schema.alias("T", t)),
+                 "member-alias": schema.dict({"k": schema.alias("T", t)}),
+                 "element-alias": schema.list(schema.alias("T", t)),
+                 "alternative-alias": schema.any(schema.alias("T", t))}
+        put = {"member-alias": lambda v: {"k": v}, "element-alias": lambda v: [v]}
+        for options in ({}, {"mc_strict": True}, {"mc_strict": False}):
+            for v in values:
+                exp = verdict(t, v, **options)
+                for form, a in forms.items():
+                    acc.count("validations")
+                    acc.count("alias_validations_with_options")
+                    got = verdict(a, put.get(form, lambda x: x)(v), **options)
+                    if got != exp:
+                        acc.violation(f"C13|alias-options|{form}-differs-from-aliased-type|{name}|"
+                                      f"options={sorted(options)}",
+                                      {"label": "alias-options", "type": name, "value": src(v),
+                                       "options": options, "aliased_type_accepts": exp, "got": got})
+
+
 def worker(shard, nshards, tier, seed, mode="shard"):
     acc = Acc()
     rng = e2.Scripted(seed)
@@ -252,6 +286,8 @@ def worker(shard, nshards, tier, seed, mode="shard"):
             allc = list(enumerate(cases(tier)))
             todo = [(i, c) for i, c in allc if c[0] == "alias" or i % 25 == 0]
             todo = todo + todo[::-1]
+        if mode == "one-process" or shard == 3 % nshards:
+            alias_options_block(acc)
         for i, (label, t) in todo:
             acc.count("combinations")
             acc.n["kind:" + label] += 1
@@ -288,8 +324,11 @@ def run(tier, seed):
 
 
 def replay(case):
-    t = unsrc(case["term"])
     acc = Acc()
+    if case.get("label") == "alias-options":
+        alias_options_block(acc)
+        return list(acc.viol)
+    t = unsrc(case["term"])
     rng = e2.Scripted(0)
     with e2.installed(rng):
         return [sig for sig, _ in judge(case["label"], t, case.get("tier", "quick"), acc, rng)]
